@@ -298,6 +298,9 @@ def p_str(s: str) -> str:
     return "'" + s.replace("\\", "\\\\").replace("'", "\\'") + "'"
 
 
+SHORTHAND = False
+
+
 def p_expr(e: tuple, top: bool = True) -> str:
     t = e[0]
     if t == "lit":
@@ -323,7 +326,7 @@ def p_expr(e: tuple, top: bool = True) -> str:
             if s[0] == "key":
                 out += "." + s[1]
             elif s[0] == "idx":
-                out += f"[{s[1]}]"
+                out += f".{s[1]}" if (SHORTHAND and s[1] >= 0) else f"[{s[1]}]"
             else:
                 out += f"[{p_expr(s[1])}]"
         return out
@@ -501,6 +504,57 @@ def c_expr(e: tuple) -> str:
     raise ValueError(e)
 
 
+NODE_TAGS = {"content", "contentm", "output", "echo", "assign", "capture", "if", "unless", "case", "for", "break",
+             "continue", "increment", "decrement", "cycle", "raw", "comment", "with", "render", "include",
+             "macro", "call"}
+
+WS = "".join(chr(c) for c in range(0x110000) if chr(c).isspace())
+
+
+def py_trim(text: str, mode: str) -> str:
+    """Environment.trim with both sides in `mode` (harness-side reference)."""
+    if mode == "-":
+        return text.strip(WS)
+    if mode == "~":
+        return text.strip("\r\n")
+    return text
+
+
+def is_block(x: Any) -> bool:
+    return isinstance(x, list) and all(isinstance(n, tuple) and n and isinstance(n[0], str) and n[0] in NODE_TAGS for n in x)
+
+
+def model_ast(x: Any, mode: str) -> Any:
+    """The AST the parser builds: adjacent content merged (one token), each content
+    trimmed with the default trim mode, blank computed on the untrimmed text."""
+    if is_block(x):
+        out: list[tuple] = []
+        for n in x:
+            if n[0] == "content" and out and out[-1][0] == "content":
+                out[-1] = ("content", out[-1][1] + n[1])
+            else:
+                out.append(n)
+        res = []
+        for n in out:
+            if n[0] == "content":
+                if n[1] == "":
+                    continue      # no token at all
+                res.append(("contentm", py_trim(n[1], mode), (not n[1]) or n[1].isspace()))
+            elif n[0] == "raw":
+                # RawTag.parse trims the inner text with the tag's inner markers (default trim here)
+                res.append(("raw", py_trim(n[1], mode)))
+            else:
+                res.append(model_ast(n, mode))
+        return res
+    if isinstance(x, tuple):
+        return tuple(model_ast(e, mode) for e in x)
+    if isinstance(x, list):
+        return [model_ast(e, mode) for e in x]
+    if isinstance(x, dict):
+        return {k: model_ast(v, mode) for k, v in x.items()}
+    return x
+
+
 def c_block(nodes: list[tuple]) -> str:
     return C.clist([c_node(n) for n in nodes], "node")
 
@@ -518,6 +572,8 @@ def c_node(n: tuple) -> str:
     if t == "content":
         blank = (not n[1]) or n[1].isspace()
         return f"(NContent {C.cstr(n[1])} {C.cbool(blank)})"
+    if t == "contentm":
+        return f"(NContent {C.cstr(n[1])} {C.cbool(n[2])})"
     if t == "output":
         return f"(NOutput {c_expr(n[1])})"
     if t == "echo":
